@@ -102,6 +102,48 @@ func (i *interpreter) trimSpace(s value) (value, value, value) {
 		return lead, core, c[len(lead)+len(core):]
 	}
 	p := i.path
+	// syntactic decomposition: [asciiws]* ++ trimmed-core ++ [asciiws]*
+	if segs := segmentsOf(s); len(segs) >= 1 {
+		isWS := func(sg interface{}) bool {
+			switch sg := sg.(type) {
+			case string:
+				return stringInClass(sg, "asciiws")
+			case *Sym:
+				return p.facts["class|asciiws|"+sg.e]
+			}
+			return false
+		}
+		lo, hi := 0, len(segs)
+		for lo < hi && isWS(segs[lo]) {
+			lo++
+		}
+		for hi > lo && isWS(segs[hi-1]) {
+			hi--
+		}
+		if lo == hi {
+			return s, "", ""
+		}
+		mid := concatOf(segs[lo:hi])
+		if cs, ok := mid.(*Sym); ok && p.facts["class|trimmed|"+cs.e] {
+			return concatOf(segs[:lo]), cs, concatOf(segs[hi:])
+		}
+		// a concrete last white-space byte run may sit inside the last concrete segment
+		if last, ok := segs[hi-1].(string); ok {
+			t := strings.TrimRight(last, "\t\n\v\f\r ")
+			if t != last && t != "" {
+				segs = append(append(append([]interface{}{}, segs[:hi-1]...), t, last[len(t):]), segs[hi:]...)
+				mid = concatOf(segs[lo:hi])
+				hi = hi // position unchanged: segs[hi] is now the white-space remainder
+			}
+		}
+		if p.edgeSafe(segs[lo], true) && p.edgeSafe(segs[hi-1], false) {
+			return concatOf(segs[:lo]), mid, concatOf(segs[hi:])
+		}
+		if c, ok := mid.(string); ok && stringInClass(c, "trimmed") {
+			return concatOf(segs[:lo]), c, concatOf(segs[hi:])
+		}
+	}
+	i.ex.noteApprox("TrimSpace: general (regex) encoding used")
 	a := p.freshVar("wsL", SStr)
 	t := p.freshVar("core", SStr)
 	b := p.freshVar("wsR", SStr)
@@ -112,6 +154,42 @@ func (i *interpreter) trimSpace(s value) (value, value, value) {
 		"(not (str.in_re "+t.e+" (re.++ "+wsTokenRe+" re.all)))",
 		"(not (str.in_re "+t.e+" (re.++ re.all "+wsTokenRe+")))")
 	return a, t, b
+}
+
+// edgeSafe: the segment is provably non-empty and its first (or last) byte
+// cannot belong to a white-space rune's encoding.
+func (p *Path) edgeSafe(sg interface{}, first bool) bool {
+	excl := trimLastExcl
+	if first {
+		excl = trimFirstExcl
+	}
+	switch sg := sg.(type) {
+	case string:
+		if sg == "" {
+			return false
+		}
+		b := sg[len(sg)-1]
+		if first {
+			b = sg[0]
+		}
+		return !inSet(b, excl)
+	case *Sym:
+		a, ok := p.alpha[sg.e]
+		if !ok {
+			return false
+		}
+		lo, _ := p.ivOf(p.mkLen(sg))
+		if lo == nil || lo.Sign() <= 0 {
+			return false
+		}
+		for b := 0; b < 256; b++ {
+			if a[b] && inSet(byte(b), excl) {
+				return false
+			}
+		}
+		return true
+	}
+	return false
 }
 
 func isSpaceRune(r rune) bool {
@@ -204,7 +282,7 @@ func (p *Path) splitFirst(s value, sep string) (head, tail value, found int) {
 				return head, tail, 1
 			}
 		case *Sym:
-			if !p.facts["nc|"+sg.e+"|"+sep] {
+			if !p.noContain(sg.e, sep) {
 				return nil, nil, -1
 			}
 		}
@@ -290,7 +368,14 @@ func (i *interpreter) itoa(v value) value {
 	s := v.(*Sym)
 	lo, _ := p.ivOf(s)
 	if lo != nil && lo.Sign() >= 0 {
-		return &Sym{sort: SStr, e: "(str.from_int " + s.e + ")"}
+		r := &Sym{sort: SStr, e: "(str.from_int " + s.e + ")"}
+		var digits [256]bool
+		for c := '0'; c <= '9'; c++ {
+			digits[c] = true
+		}
+		p.setAlpha(r.e, &digits)
+		p.varIv["(str.len "+r.e+")"] = ival{bigOne, bi(20)}
+		return r
 	}
 	return &Sym{sort: SStr, e: "(ite (< " + s.e + " 0) (str.++ \"-\" (str.from_int (- " + s.e + "))) (str.from_int " + s.e + "))"}
 }
@@ -473,7 +558,7 @@ func init() {
 		return r
 	})
 	reg("strings.HasPrefix", func(fr *frame, a []value) value { return mkPrefixOf(a[1], a[0]) })
-	reg("strings.HasSuffix", func(fr *frame, a []value) value { return mkSuffixOf(a[1], a[0]) })
+	reg("strings.HasSuffix", func(fr *frame, a []value) value { return fr.i.path.suffixV(a[1], a[0]) })
 	reg("bytes.HasPrefix", func(fr *frame, a []value) value {
 		return mkPrefixOf(fr.i.strArg(a[1]), fr.i.strArg(a[0]))
 	})
@@ -599,7 +684,10 @@ func init() {
 				return (*byteSlice)(nil)
 			}
 		}
-		return &byteSlice{arr: bs.arr, off: i.path.mkAdd(bs.off, ll), len: tl, cap: i.path.mkSub(bs.cap, ll)}
+		_ = ll
+		// the result is a fresh array holding the trimmed bytes (Go returns a
+		// sub-slice of the argument; writes through it are not modelled)
+		return i.newBytes(t)
 	})
 	reg("strings.TrimSuffix", func(fr *frame, a []value) value {
 		i := fr.i
